@@ -196,6 +196,47 @@ def run(ctx):
                construct="draw: %s" % stmt_text(n), detail="" if ok else "the drawn element does not go to <cache>.append/extend",
                analysis="def-use of the generator alias (reaching definitions)")
 
+    # C11.GENFAIL - a shared generator that raised anything but StopIteration is finished for good: its next draw raises
+    # StopIteration, which the filling loop reads as "rule exhausted" and publishes an empty / truncated complete cache,
+    # where the uncached rule raises the same error again.  Every draw therefore sits in a try whose handlers include one
+    # for general exceptions that replaces the shared generator (or invalidates the cache) before re-raising.
+    pmap = {}
+    for p in ast.walk(ic.node):
+        for ch in ast.iter_child_nodes(p):
+            pmap[ch] = p
+    n_gf = 0
+    seen_try = set()
+    for n, x, ok_ in draws:
+        q, tr = x, None
+        while q in pmap:
+            ch, q = q, pmap[q]
+            if isinstance(q, ast.Try) and ch in q.body:
+                if any(h.type is None or src(h.type).split(".")[-1] in ("Exception", "BaseException") for h in q.handlers) or tr is None:
+                    tr = q
+                if any(h.type is None or src(h.type).split(".")[-1] in ("Exception", "BaseException") for h in q.handlers):
+                    break
+        key = id(tr) if tr is not None else id(n)
+        if key in seen_try:
+            continue
+        seen_try.add(key)
+        n_gf += 1
+        ok = False
+        if tr is not None:
+            for h in tr.handlers:
+                if h.type is None or src(h.type).split(".")[-1] in ("Exception", "BaseException"):
+                    resets = any((isinstance(y, ast.Assign) and any(src(t) == "self._cache_gen" for t in y.targets)
+                                  and not (isinstance(y.value, ast.Constant) and y.value.value is None))
+                                 or (isinstance(y, ast.Call) and src(y.func) == "self._invalidate_cache") for b in h.body for y in ast.walk(b))
+                    reraises = any(isinstance(y, ast.Raise) for b in h.body for y in ast.walk(b))
+                    ok = ok or (resets and reraises)
+        ctx.ob("C11.GENFAIL", ic, "when the shared generator fails with an error other than StopIteration the failure is not later mistaken for "
+               "exhaustion: a handler for general exceptions around the draw replaces the dead generator (or invalidates the cache) and re-raises",
+               ok, construct="failure of the shared generator in _iter_cached",
+               detail="" if ok else "no `except Exception` handler around `%s` that resets self._cache_gen: the next iteration of a cached rule whose _iter raised "
+               "returns an empty/truncated list and count() None, the uncached rule raises again" % stmt_text(n),
+               analysis="exception-handler coverage of the draw sites (ast)")
+    ctx.floor("C11.GENFAIL", n_gf, 1, "try regions around draws from the shared generator")
+
     # C11.OWNLOCK - the cache lock belongs to the instance
     init = prog.method(base.qualname, "__init__", "C11.OWNLOCK")
     from ..lock import find_locks
